@@ -78,14 +78,33 @@ func (r *Run) Fork(n int, extraEnv ...string) (isParent bool) {
 		}(i)
 	}
 	wg.Wait()
-	for _, e := range errs {
+	// A worker that died (killed, crashed) leaves its share unchecked. That is a machinery failure (exit 2) - unless other
+	// workers have already found violations: those are real, they are reported (exit 1) and the dead worker's share is
+	// recorded as not checked. A run with a dead worker never exits 0.
+	var dead []string
+	for i, e := range errs {
 		if e != nil {
-			Fatalf("fork: %v", e)
+			dead = append(dead, e.Error())
+			errs[i] = nil
 		}
 	}
+	finish := func() {
+		if len(dead) == 0 {
+			return
+		}
+		if len(r.violations) == 0 {
+			Fatalf("fork: %s", strings.Join(dead, "; "))
+		}
+		fmt.Fprintf(os.Stderr, "NOTE: %d worker(s) died, their share was not checked: %s\n", len(dead), strings.Join(dead, "; "))
+		r.Capped(fmt.Sprintf("%d worker process(es) died; their share of the enumeration was not checked", len(dead)))
+	}
+	defer finish()
 	for i := 0; i < n; i++ {
 		b, err := os.ReadFile(filepath.Join(dir, fmt.Sprintf("w%d.json", i)))
 		if err != nil {
+			if len(dead) > 0 {
+				continue // a dead worker leaves no result
+			}
 			Fatalf("fork: worker %d left no result: %v\n%s", i, err, outs[i])
 		}
 		var p partial
